@@ -97,7 +97,12 @@ pub fn c14(out: &mut dyn Write, tier: &str, rng: &mut Rng, st: &mut Stats) {
     let n = if tier == "thorough" { 200000 } else { 1500 };
     for i in 0..n {
         // names needing escaping: ' and non-ASCII letters
-        let pool = ["a", "b", "c'", "é", "x_1", "y''", "ñandú", "d"];
+        // … and, in every fifth case, names longer than any fixed label width (33 and 40 characters, two of them
+        // sharing their first 32)
+        let pool_short = ["a", "b", "c'", "é", "x_1", "y''", "ñandú", "d"];
+        let pool_long = ["a", "session_is_authenticated_and_request_ok", "session_is_authenticated_and_requested", "c'",
+            "abcdefghijklmnopqrstuvwxyz0123456", "é", "abcdefghijklmnopqrstuvwxyz012345", "d"];
+        let pool = if i % 5 == 3 { pool_long } else { pool_short };
         let k = 1 + rng.below(5) as usize;
         let mut names: Vec<String> = Vec::new();
         while names.len() < k { let nm = rng.pick(&pool[..]).to_string(); if !names.contains(&nm) { names.push(nm); } }
